@@ -35,6 +35,7 @@ SecRule REQUEST_HEADERS:User-Agent "@rx ver:x" \
     severity:'CRITICAL'"
 
 SecComponentSignature "OWASP_CRS/{V}"
+SecAction "id:900991,ver:'OWASP_CRS/{V}',setvar:tx.crs_setup_version={D},setvar:tx.crs_setup_version={D},ver:'OWASP_CRS/{V}'"
 `
 
 const c14Legacy = `# OWASP ModSecurity Core Rule Set ver.{V}
